@@ -241,7 +241,20 @@ func c03Random(g *c03Gen) *c03Case {
 				c.Pop = "malformed:json-leading-garbage"
 			}
 		case "xml":
-			switch k := g.pick([]string{"truncated", "mismatched-tag", "illegal-char"}); k {
+			switch k := g.pick([]string{"truncated", "mismatched-tag", "illegal-char", "stray-end-tag", "stray-end-tag"}); k {
+			case "stray-end-tag":
+				// a stray end element in the middle of the document: every item after it is complete in the text,
+				// so either an error is reported or everything is visible
+				if i := strings.IndexByte(string(body), '>'); i > 0 && strings.HasSuffix(string(body), "</root>") {
+					at := i + 1
+					if j := strings.Index(string(body[at:]), "><"); j >= 0 && g.r.IntN(2) == 0 {
+						at += j + 1
+					}
+					nb := append([]byte{}, body[:at]...)
+					nb = append(nb, "</zz>"...)
+					body = append(nb, body[at:]...)
+					c.Pop = "malformed:xml-stray-end-tag"
+				}
 			case "truncated":
 				c.Trunc = 1 + g.r.IntN(len(body)-1)
 				body = body[:c.Trunc]
